@@ -58,9 +58,9 @@ pub fn dist_types(dense: bool) -> Vec<DistType> {
     let pr = prob_menu();
     let step = if dense { 1 } else { 2 };
     let mut v = vec![];
-    let fin: Vec<f64> = a.iter().cloned().filter(|x| x.is_finite()).collect();
-    for (i, lo) in fin.iter().enumerate() {
-        for hi in fin.iter().skip(i % step).step_by(step) {
+    // incl. NaN and infinities: validation has to reject those (candidates it rejects are counted, not sampled)
+    for (i, lo) in a.iter().enumerate() {
+        for hi in a.iter().skip(i % step).step_by(step) {
             v.push(DistType::Uniform { low: *lo, high: *hi });
         }
     }
@@ -103,8 +103,9 @@ pub fn dist_types(dense: bool) -> Vec<DistType> {
     v
 }
 
-pub fn validated(dense: bool) -> (Vec<Dist>, usize) {
+pub fn validated(dense: bool) -> (Vec<Dist>, usize, Vec<Dist>) {
     let mut out = vec![];
+    let mut rejected = vec![];
     let mut cands = 0;
     let sm = start_max();
     for (i, t) in dist_types(dense).into_iter().enumerate() {
@@ -117,10 +118,12 @@ pub fn validated(dense: bool) -> (Vec<Dist>, usize) {
             let d = Dist { dist: t, start: *s, max: *m };
             if std::panic::catch_unwind(|| d.validate().is_ok()).unwrap_or(false) {
                 out.push(d);
+            } else if j < 2 {
+                rejected.push(d);
             }
         }
     }
-    (out, cands)
+    (out, cands, rejected)
 }
 
 /// Script prefixes: all words^len for len <= maxlen, plus the 9 constant prefixes of length 64.
@@ -204,9 +207,18 @@ pub fn consumer_once(d: &Dist, pos: usize, words: &[u64], tail_seed: u64) -> Res
         0 => (Some(Action::SendPadding { bypass: false, replace: false, timeout: *d, limit: None }), (None, None)),
         1 => (Some(Action::BlockOutgoing { bypass: false, replace: false, timeout: cst, duration: *d, limit: None }), (None, None)),
         2 => (Some(Action::UpdateTimer { replace: false, duration: cst, limit: Some(*d) }), (None, None)),
-        _ => (Some(Action::Cancel { timer: maybenot::action::Timer::All }), (Some(Counter::new_dist(Operation::Set, *d)), Some(Counter::new_dist(Operation::Decrement, *d)))),
+        3 => (Some(Action::Cancel { timer: maybenot::action::Timer::All }), (Some(Counter::new_dist(Operation::Set, *d)), Some(Counter::new_dist(Operation::Decrement, *d)))),
+        4 => (None, (Some(Counter::new_dist(Operation::Increment, *d)), None)),
+        5 => (None, (Some(Counter::new_dist(Operation::Increment, cst)), Some(Counter::new_dist(Operation::Set, *d)))),
+        6 => (Some(Action::SendPadding { bypass: true, replace: true, timeout: cst, limit: Some(*d) }), (None, None)),
+        _ => (Some(Action::BlockOutgoing { bypass: true, replace: true, timeout: *d, duration: cst, limit: Some(cst) }), (None, None)),
     };
-    let m = Machine { allowed_padding_packets: u64::MAX, max_padding_frac: 0.0, allowed_blocked_microsec: u64::MAX, max_blocking_frac: 0.0, states: vec![crate::fam::st_map(t.clone(), None, (None, None)), crate::fam::st_map(t, a, ctr)] };
+    // through the validating constructor: a machine it rejects is not part of the claim
+    let m = match std::panic::catch_unwind(std::panic::AssertUnwindSafe(|| Machine::new(u64::MAX, 0.0, u64::MAX, 0.0, vec![crate::fam::st_map(t.clone(), None, (None, None)), crate::fam::st_map(t.clone(), a, ctr)]))) {
+        Ok(Ok(m)) => m,
+        Ok(Err(_)) => return Err(("rejected".into(), String::new())),
+        Err(_) => return Err(("panic".into(), format!("Machine::new panicked: {}", first_line(&crate::explore::last_panic())))),
+    };
     let mut script = vec![0u64]; // the transition draw
     script.extend_from_slice(words);
     let mut rng = WordRng::new(&script, tail_seed);
@@ -324,7 +336,7 @@ fn signature(f: &Finding) -> String {
 pub fn worker(ctx: &WorkerCtx) -> WorkerOut {
     let q = ctx.quick();
     let t0 = std::time::Instant::now();
-    let (dists, cands) = validated(!q);
+    let (dists, cands, rejected) = validated(!q);
     let scr = scripts(if q { 2 } else { 3 });
     let tails: Vec<u64> = (0..if q { 1 } else { 3 }).map(|i| ctx.seed.wrapping_mul(0x9E37_79B9).wrapping_add(i)).collect();
     let (bin, rest): (Vec<Dist>, Vec<Dist>) = dists.iter().cloned().partition(|d| family(d) == "Binomial");
@@ -376,9 +388,13 @@ pub fn worker(ctx: &WorkerCtx) -> WorkerOut {
                                 }
                                 // the consumers, on a third of the scripts
                                 if si % 3 == 0 {
-                                    for pos in 0..4 {
+                                    for pos in 0..8 {
                                         cons += 1;
                                         if let Err((k, m)) = consumer_once(d, pos, w, tails[0]) {
+                                            if k == "rejected" {
+                                                // Dist::validate accepts, a machine constructor does not: C12's subject
+                                                continue;
+                                            }
                                             finds.push(Finding { kind: k, msg: m, dist: *d, words: w.clone(), tail: tails[0], consumer: Some(pos) });
                                         }
                                     }
@@ -398,6 +414,46 @@ pub fn worker(ctx: &WorkerCtx) -> WorkerOut {
     let (mut n, mut inf, mut cons) = (0u64, 0u64, 0u64);
     let mut finds: Vec<Finding> = vec![];
     let mut fams: std::collections::BTreeMap<&'static str, u64> = Default::default();
+    // distributions Dist::validate rejects, placed in every position of a machine: if a validating
+    // constructor nevertheless accepts the machine, it must run ("a machine that passed validation can
+    // never stall or crash the framework through its distributions")
+    let mut rejected_machines_accepted = 0u64;
+    let mut rejected_tried = 0u64;
+    {
+        // units 10_000_000 + chunk: attributable through breadcrumbs like the in-process sweep
+        let rej: Vec<&Dist> = rejected.iter().filter(|d| family(d) != "Binomial").collect();
+        const RCH: usize = 32;
+        for (ci, chunk) in rej.chunks(RCH).enumerate() {
+            let unit = 10_000_000 + ci as u64;
+            if let Some(u) = ctx.only_unit {
+                if u != unit {
+                    continue;
+                }
+            }
+            if let Some(c) = crumbs {
+                c.set(0, unit);
+            }
+            for d in chunk {
+                for pos in 0..8 {
+                    rejected_tried += 1;
+                    if let Some(fc) = fine {
+                        fc.write(&json!({"property": "C13", "engine": "E3", "dist": format!("{:?}", d), "dist_hex": enc_dist(d), "words": [], "tail_seed": tails[0], "consumer": pos, "kind": "hang", "message": "worker died (hang without drawing, or abort) while running a machine that carries a distribution Dist::validate rejects but a machine constructor accepted"}));
+                    }
+                    match consumer_once(d, pos, &[], tails[0]) {
+                        Err((k, _)) if k == "rejected" => {}
+                        Ok(()) => rejected_machines_accepted += 1,
+                        Err((k, m)) => {
+                            rejected_machines_accepted += 1;
+                            finds.push(Finding { kind: format!("accepted-invalid-{k}"), msg: format!("a machine carrying a distribution that Dist::validate rejects was accepted by Machine::new, and running it: {m}"), dist: **d, words: vec![], tail: tails[0], consumer: Some(pos) });
+                        }
+                    }
+                }
+            }
+        }
+        if let Some(c) = crumbs {
+            c.set(0, u64::MAX);
+        }
+    }
     for (a, b, c2, f, fm) in parts {
         n += a;
         inf += b;
@@ -503,7 +559,7 @@ pub fn worker(ctx: &WorkerCtx) -> WorkerOut {
         "rule": "distributions = 11 families x parameter corner grid x (start,max) corner pairs, kept if the real Dist::validate accepts them; for each, every RNG script whose prefix is any sequence of <= d extreme words (9-word menu; d = 2 quick, 3 thorough), plus 9 constant 64-word prefixes, followed by a fair xoshiro tail; oracle: returns within 1e5 draws / 250 ms (Binomial: 1.5 s watchdog in a helper process), no panic, value not NaN, >= 0, <= max when set; also through the framework consumers (timeout, duration, limit, counter). distinct_nontrivial = validated distributions sampled",
         "samples": samples, "exhaustive": ctx.only_unit.is_none(),
         "candidate_distributions": cands, "validated_distributions": dists.len(), "distributions_per_family": fams.iter().map(|(k, v)| (k.to_string(), json!(v))).collect::<serde_json::Map<String, Value>>(),
-        "scripts_per_distribution": scr.len(), "fair_tails": tails.len(), "in_process_samples": n, "binomial_helper_samples": bn, "binomial_helper_hangs": hangs, "consumer_calls": cons, "infinite_values_returned_without_max": inf,
+        "scripts_per_distribution": scr.len(), "fair_tails": tails.len(), "in_process_samples": n, "binomial_helper_samples": bn, "binomial_helper_hangs": hangs, "consumer_calls": cons, "rejected_distributions_tried_in_machines": rejected_tried, "machines_with_a_rejected_distribution_that_were_accepted": rejected_machines_accepted, "infinite_values_returned_without_max": inf,
         "findings_by_signature": by_sig.iter().map(|(k, v)| (k.clone(), json!(v.0))).collect::<serde_json::Map<String, Value>>(),
         "wall_s": t0.elapsed().as_secs_f64(),
     });
